@@ -1,7 +1,7 @@
 (* Driver for the extracted C14 specification (coq/ROSpec.v, a monitor over the observed trace).
    usage: ro_spec <history-file> <library-output-file>
    Both files have one line per operation (the library output as printed by harness/drive_ro.c:
-   "<ln> <ok|fail|na> w=<bytes>,<calls>,<creates> ..", "<ln> check same|..", "<ln> dump <hash> w=..").
+   "<ln> <ok|fail|na> w=<bytes>,<calls>,<creates> ..", "<ln> check same|..", "<ln> dump w=.. n=<k> <record hashes>").
    Prints per line:  "<ln> ok"  or  "<ln> VIOLATION <codes>"  (codes of ROSpec.clause_code), "<ln> history" at
    history boundaries, "<ln> crash" is passed through as a violation of its own (code 9). *)
 open Ro_spec
@@ -61,8 +61,18 @@ let () =
          let rc = match rt with "ok" :: _ -> ROk | "fail" :: _ -> RFail | "na" :: _ -> RNa | _ -> ROk in
          let aux = match rt with
            | "check" :: rest -> if rest = ["same"] then 1 else 0
-           | "dump" :: h :: _ -> (match Hashtbl.find_opt dumps h with Some k -> k
-                                  | None -> let k = Hashtbl.length dumps + 1 in Hashtbl.add dumps h k; k)
+           | "dump" :: rest ->
+             (* last token = comma-separated record hashes; baseline = first dump of the history *)
+             let hs = match List.rev rest with
+               | last :: _ when Stdlib.String.length last >= 8 && not (Stdlib.String.contains last '=') -> String.split_on_char ',' last
+               | _ -> [] in
+             if Hashtbl.length dumps = 0 then begin
+               Hashtbl.add dumps "#baseline" 0; List.iter (fun h -> Hashtbl.replace dumps h 1) hs; 1 end
+             else begin
+               let cur = Hashtbl.create 64 in List.iter (fun h -> Hashtbl.replace cur h 1) hs;
+               let ok = ref true in
+               Hashtbl.iter (fun h _ -> if h <> "#baseline" && not (Hashtbl.mem cur h) then ok := false) dumps;
+               if !ok then 1 else 0 end
            | _ -> 0 in
          let ev = { e_name = coq_string name; e_args = List.map (fun t -> z (num_of_tok t)) args; e_rc = rc;
                     e_wbytes = z wb; e_wcalls = z wc; e_wcreates = z wcr; e_aux = z aux } in
